@@ -184,28 +184,32 @@ func (el EntryList) Equal(e2 EntryList) bool {
 		return false
 	}
 
-	first := make(EntryList, len(el))
+	// every entry of e2 can be matched by at most one entry of el
+	matched := make([]bool, len(e2))
 
-	copy(first, el)
+	for _, ea := range el {
+		found := false
 
-	second := make(EntryList, len(e2))
-
-	copy(second, e2)
-
-	matches := 0
-
-	for _, ea := range first {
-		for _, eb := range second {
-			if ea.Timestamp.Equal(eb.Timestamp.Time) {
-				// Timestamps equal, check the record
-				if reflect.DeepEqual(ea.Record, eb.Record) {
-					matches++
-				}
+		for i, eb := range e2 {
+			if matched[i] {
+				continue
 			}
+
+			if ea.Timestamp.Equal(eb.Timestamp.Time) &&
+				reflect.DeepEqual(ea.Record, eb.Record) {
+				matched[i] = true
+				found = true
+
+				break
+			}
+		}
+
+		if !found {
+			return false
 		}
 	}
 
-	return matches == len(el)
+	return true
 }
 
 // EntryExt is the basic representation of an individual event.  The timestamp
